@@ -12,7 +12,8 @@ attribute [simp] M3.eulerSC M4.eulerSC Quat.eulerSC M3.ofEuler M4.ofEuler Quat.o
 
 section algebraic
 variable {F : Type} [Field F] [Transc F]
-/-- Matrix3 / Matrix4 / Basis3 from Euler angles are `from_angle_x(x) * from_angle_y(y) * from_angle_z(z)` -/
+/-- Matrix3 / Matrix4 from Euler angles are `from_angle_x(x) * from_angle_y(y) * from_angle_z(z)` (Basis3 is not in this
+statement: `basis3_ofEuler_eq_product`, `Props/C07c.lean`) -/
 theorem ofEuler_eq_product (x y z : F) :
     M3.ofEuler x y z = M3.fromAngleX x * M3.fromAngleY y * M3.fromAngleZ z ∧
     M4.ofEuler x y z = M4.fromAngleX x * M4.fromAngleY y * M4.fromAngleZ z ∧
